@@ -1106,6 +1106,8 @@ class Evaluator:
             if isinstance(v, Call) and isinstance(v.func, Ext) and v.func.name.endswith('auto'):
                 return frozenset({(t.cls, t.name)})
             return self.flag_bits(v, _depth + 1)
+        if isinstance(t, Const) and t.value == 0 and isinstance(t.value, int) and not isinstance(t.value, bool):
+            return frozenset()  # the empty flag
         if isinstance(t, Op) and t.op in ('|', '&') and len(t.args) == 2:
             a, b = self.flag_bits(t.args[0], _depth + 1), self.flag_bits(t.args[1], _depth + 1)
             if a is None or b is None:
